@@ -135,6 +135,9 @@ func (s *State) Member(t *rapid.T, p Profile) string {
 	} else if rapid.IntRange(0, 5).Draw(t, "arr") == 0 {
 		params = fmt.Sprintf(`[%d]`, k)
 	}
+	if method == "ret" && rapid.IntRange(0, 7).Draw(t, "rpcname") == 0 {
+		method = "rpcret" // a name that merely begins like the reserved prefix: a method like any other
+	}
 	if note {
 		s.IDOf[k] = ""
 		if rapid.IntRange(0, 4).Draw(t, "nullid") == 0 {
